@@ -596,8 +596,8 @@ impl Check for C07 {
             real: &["h3 server (Connection, RequestResolver, RequestStream) / h3 client (Connection driver, SendRequest, split RequestStream halves)", "h3 connection/frame/stream/qpack/proto modules, error propagation"],
             stub: &["QUIC transport (SimQuic)", "executor (simexec)", "reference peer (script + reference codecs, reads h3's output from the wire log)", "applications (echo server / concurrent client requests)"],
             assumptions: &["client role: the wire codes of stop_sending after a malformed/oversized response are not judged", "a STOP_SENDING that arrives after h3 finished sending legitimately goes unnoticed"],
-            quick_runs: 100_000,
-            thorough_runs: 5_000_000,
+            quick_runs: 600_000,
+            thorough_runs: 24_000_000,
         }
     }
     fn run(&self, ctx: &RunCtx) -> RunOut {
